@@ -347,7 +347,7 @@ static std::string runCli(const vj::Val& st) {
   std::string dir = std::string(wd ? wd : "/tmp") + "/cli." + std::to_string((long)getpid());
   mkdir(dir.c_str(), 0755);
   std::string mode = st.str("mode", "file");
-  std::string text = st.str("text");
+  std::string text = textOf(st);
   std::string prog = dir + "/prog.bloc", so = dir + "/stdout", se = dir + "/stderr", of = dir + "/out.txt", si = dir + "/stdin";
   { std::ofstream f(prog, std::ios::binary); f << text; }
   { std::ofstream f(si, std::ios::binary); if (mode == "stdin" || mode == "inter") f << text; }
@@ -498,6 +498,8 @@ static std::string doCapi(const vj::Val& st) {
     g_ch.lib[h] = v;
     o += std::string(",\"sym\":") + (sym ? "true" : "false") + ",\"val\":" + capiValue(v);
   }
+  else if (a == "lib_setstr") { bloc_bool r = bloc_assign_literal(g_ch.lib[h], st.str("sv").c_str()); o += std::string(",\"ret\":") + (r ? "true" : "false") + ",\"val\":" + capiValue(g_ch.lib[h]); }
+  else if (a == "lib_null") { bloc_assign_null(g_ch.lib[h]); o += ",\"val\":" + capiValue(g_ch.lib[h]); }
   else if (a == "read_lib") { o += ",\"val\":" + capiValue(g_ch.lib[h]); }
   else if (a == "read_val") { o += ",\"val\":" + capiValue(g_ch.val[h]); }
   else if (a == "parse_exec") {
@@ -614,18 +616,23 @@ static std::string doStep(const vj::Val& st) {
         c.execs.push_back(ex);
         c.last = ex;
         if (op != "parse") {
-          try { ex->run(); }
+          try {
+            /* "runin": the compiled program is run by another context (a clone), as bloc_execute2 does */
+            if (st.get("runin")) { Ctx& rc = getCtx((int)st.num("runin")); ex->run(*rc.ctx, ex->statements()); }
+            else ex->run();
+          }
           catch (RuntimeError& re) { oc = "runtime_error"; no = re.no; name = errName(re); msg = re.what(); }
         }
       }
+      Ctx& oc_ctx = st.get("runin") ? getCtx((int)st.num("runin")) : c;
       o += ",\"oc\":" + vj::q(oc) + ",\"no\":" + std::to_string(no) + ",\"name\":" + vj::q(name);
-      o += ",\"out\":" + vj::q(drainOut(c));
+      o += ",\"out\":" + vj::q(drainOut(oc_ctx));
       if (op != "parse") {
-        o += ",\"rv\":" + retJson(*c.ctx);
+        o += ",\"rv\":" + retJson(*oc_ctx.ctx);
         /* what a host does after a run: the return condition belongs to the finished program */
-        c.ctx->returnCondition(false);
+        oc_ctx.ctx->returnCondition(false);
       }
-      o += "," + stateJson(*c.ctx);
+      o += "," + stateJson(*oc_ctx.ctx);
     }
     else if (op == "rerun") {
       Ctx& c = getCtx(id);
